@@ -16,27 +16,32 @@ def _registry():
     return Registry(table, cpkg.MODULES)
 
 
-def run_decoded(c, decoded):
-    """decoded: {input name: kinds.decode data}.  Returns (run_case output, raw native inputs)."""
+def run_decoded(c, decoded, tags=None):
+    """decoded: {input name: kinds.decode data}; tags: path tags (which abstract calls raised).
+    Returns (run_case output, raw native inputs)."""
     ctx = native.Ctx(decoded.get('__tables__'))
     raw = {}
+    gen = native.Gen(0)
 
-    def source(name, kind):
+    def value(name, kind):
         if not isinstance(kind, K.Kind):
             raise ValueError(f'cannot rebuild {name} from a model')
         if name not in decoded:
-            raise ValueError(f'model has no value for {name}')
-        v = native.from_decoded(kind, decoded[name], ctx)
+            # a value the path never looked at: any value will do
+            v = gen.of(kind)
+        else:
+            v = native.from_decoded(kind, decoded[name], ctx)
         raw[name] = v
         return v
+    source = native.FnSource(value, native.outcomes_from_tags(tags or []))
     ni = native.NativeInputs(c, source)
     vals = ni.build_all()
-    return native.run_case(c, vals, ni.log), raw
+    return native.run_case(c, vals, ni.log, source), raw
 
 
 def run_witness(c, witness):
     if 'decoded' in witness and witness['decoded'] is not None:
-        out, raw = run_decoded(c, witness['decoded'])
+        out, raw = run_decoded(c, witness['decoded'], witness.get('tags'))
         return out
     if 'python' in witness:
         # inputs given as python literals (bounded-search witnesses of simple kinds)
@@ -72,7 +77,7 @@ def main(argv):
             print('  ', o['name'], o['verdict'], o.get('detail', '')[:120])
         return 1
     if w.get('decoded') is not None:
-        out, raw = run_decoded(c, w['decoded'])
+        out, raw = run_decoded(c, w['decoded'], w.get('tags'))
     else:
         # bounded-search witness: re-generate from the recorded seed
         g = w.get('regen')
